@@ -1,6 +1,7 @@
 package component
 
 import (
+	"errors"
 	"io"
 )
 
@@ -17,7 +18,7 @@ func (SuspiciousStewEffects) ID() string {
 
 // ReadFrom implements DataComponent.
 func (s *SuspiciousStewEffects) ReadFrom(r io.Reader) (n int64, err error) {
-	panic("unimplemented")
+	return 0, errors.New("component: ReadFrom is not implemented")
 }
 
 // WriteTo implements DataComponent.
